@@ -447,6 +447,50 @@ def run(eng, R):
                      "%s stores into %s at one position (%s): a node that occurs several times in the list is replaced only where list.index finds it first, the other positions keep "
                      "the old node and the values read through them" % (f.qualname, fld, norm_stmt(bad[0])[:80] if bad else ""))
 
+    # ---- B11: a rejected dependency takes back exactly the edges it added --------------------------------
+    with R.guard("B11: a rejected dependency takes back exactly the edges it a"):
+        R.rule("B11", "add_dependency rolls a rejected (cyclic) request back by removing only the edges this call added: the list the roll-back iterates over receives a node "
+                      "only if it was not a child before (removing an edge that existed before - a function's own parameter - cuts the update notifications of that input)", 1)
+        f = Nexus.find_method("add_dependency")
+        tries = [t for t in ast.walk(f.node) if isinstance(t, ast.Try) and any(isinstance(c, ast.Call) and "NodeCycleChecker" in _txt(c) for b in t.body for c in ast.walk(b))]
+        loops = [l for t in tries for h in t.handlers for b in h.body for l in ast.walk(b) if isinstance(l, ast.For) and isinstance(l.target, ast.Name)
+                 and any(isinstance(c, ast.Call) and isinstance(c.func, ast.Attribute) and c.func.attr == "remove_child" and [_txt(a) for a in c.args] == [l.target.id] for c in ast.walk(l))]
+        ok, why = bool(loops), "no roll-back loop (`for d in <added>: node.remove_child(d)`) in the handler of the cycle check"
+        for l in loops:
+            it = l.iter   # (the name of the list; a plain copy of it was closed by the canonical form)
+            good = False
+            if isinstance(it, ast.Name):
+                inits = [a for a in ast.walk(f.node) if isinstance(a, ast.Assign) and len(a.targets) == 1 and isinstance(a.targets[0], ast.Name) and a.targets[0].id == it.id]
+                apps = [c for c in ast.walk(f.node) if isinstance(c, ast.Call) and isinstance(c.func, ast.Attribute) and c.func.attr == "append" and isinstance(c.func.value, ast.Name)
+                        and c.func.value.id == it.id]
+                others = [c for c in ast.walk(f.node) if isinstance(c, ast.Call) and isinstance(c.func, ast.Attribute) and c.func.attr in ("extend", "insert") and isinstance(c.func.value, ast.Name)
+                          and c.func.value.id == it.id] + [a for a in ast.walk(f.node) if isinstance(a, ast.AugAssign) and isinstance(a.target, ast.Name) and a.target.id == it.id]
+
+                def new_only(call):
+                    # appended under `d not in node.get_children()` (d the appended node)
+                    d = _txt(common.resolve_local(f.node, call.args[0])) if call.args else None
+                    for t, pol in common.guard_conditions(f.node, call):
+                        if isinstance(t, ast.Compare) and len(t.ops) == 1 and isinstance(t.ops[0], (ast.NotIn, ast.In)) and (isinstance(t.ops[0], ast.NotIn) == pol) \
+                                and _txt(common.resolve_local(f.node, t.left)) == d and "children" in _txt(t.comparators[0]):
+                            return True
+                    return False
+
+                if len(inits) == 1 and isinstance(inits[0].value, ast.List) and not inits[0].value.elts and apps and not others:
+                    good = all(new_only(c) for c in apps)
+                elif len(inits) == 1 and isinstance(inits[0].value, ast.ListComp) and not apps and not others:
+                    g0 = inits[0].value.generators[0]
+                    adds = [c.lineno for c in ast.walk(f.node) if isinstance(c, ast.Call) and isinstance(c.func, ast.Attribute) and c.func.attr == "add_child"]
+                    good = any(isinstance(t, ast.Compare) and isinstance(t.ops[0], ast.NotIn) and "children" in _txt(t.comparators[0]) for t in g0.ifs) \
+                        and all(inits[0].lineno < ln for ln in adds)
+            if not good:
+                ok, why = False, "the roll-back iterates over `%s`, which is not the list of nodes that were not children before this call" % _txt(l.iter)
+        R.ob("B11", "Nexus.add_dependency:roll-back", ok, eng.where(f), "Nexus.add_dependency: %s" % why if not ok else "ok")
+
+
+def _txt(n):
+    return " ".join(ast.unparse(n).split()) if n is not None else None
+
+
 def _inside(outer, inner):
     for n in ast.walk(outer):
         if n is inner:
